@@ -324,10 +324,23 @@ package security
 //@   ensures no_key_installed: a.stream.gcm == old(a.stream.gcm)
 //@   preserves security.SecurityConfig security.Authenticator security.SecurityNegotiation elems$security.AuthMethod G$authOK
 
+// The method <-> bit table (condor_auth.h). No longer trusted: the body is verified against the table, and the inverse
+// direction is a postcondition of bitmaskToAuthMethod, so a method the server selects by bit is run under the name whose
+// bit the client offered (C03: an unoffered method is never run; C10: both ends mean the same method by a bit).
 //@ func authMethodToBitmask (method) (result)
-//@   trusted
+//@   props C03 C10
 //@   pure
 //@   deterministic
+//@   ensures table: [C03 C10] (method == "CLAIMTOBE" ==> result == 2) && (method == "FS" ==> result == 4) && (method == "KERBEROS" ==> result == 64) && (method == "SSL" ==> result == 256) && (method == "PASSWORD" ==> result == 512) && (method == "TOKEN" ==> result == 2048) && (method == "SCITOKENS" ==> result == 4096) && (method == "IDTOKENS" ==> result == 4096) && (method == "NONE" ==> result == 0)
+//@   ensures single_bit_or_nothing: [C03 C10] result == 0 || result == 2 || result == 4 || result == 64 || result == 256 || result == 512 || result == 2048 || result == 4096
+
+//@ func bitmaskToAuthMethod (bitmask) (result)
+//@   props C03 C10
+//@   pure
+//@   deterministic
+//@   ensures table: [C03 C10] (bitmask == 2 ==> result == "CLAIMTOBE") && (bitmask == 4 ==> result == "FS") && (bitmask == 64 ==> result == "KERBEROS") && (bitmask == 256 ==> result == "SSL") && (bitmask == 512 ==> result == "PASSWORD") && (bitmask == 2048 ==> result == "TOKEN") && (bitmask == 4096 ==> result == "SCITOKENS")
+//@   ensures nothing_else: [C03 C10] result == "" || result == "NONE" || result == "CLAIMTOBE" || result == "FS" || result == "KERBEROS" || result == "SSL" || result == "PASSWORD" || result == "TOKEN" || result == "SCITOKENS"
+//@   ensures names_a_bit_only_for_that_bit: [C03 C10] result != "" && result != "NONE" ==> bitmask == 2 || bitmask == 4 || bitmask == 64 || bitmask == 256 || bitmask == 512 || bitmask == 2048 || bitmask == 4096
 
 //@ func (*Authenticator).handleClientAuthentication (a, ctx, negotiation) (err)
 //@   props C03 C10
@@ -340,6 +353,7 @@ package security
 //@   loop 5 invariant none_yet: authOKCount == old(authOKCount) && a.stream != nil
 //@   loop 5 invariant kept: negotiation.Encryption == old(negotiation.Encryption) && negotiation.NegotiatedCrypto == old(negotiation.NegotiatedCrypto) && negotiation.ClientConfig == old(negotiation.ClientConfig) && negotiation.ServerConfig == old(negotiation.ServerConfig) && negotiation.IsClient == old(negotiation.IsClient) && negotiation.SessionResumed == old(negotiation.SessionResumed) && a.stream.gcm == old(a.stream.gcm)
 //@   assert before call performAuthentication #1 offered_only: (serverResponse &^ availableBitmask) == 0
+//@   assert before call performAuthentication #1 runs_the_method_of_the_selected_bit: [C03 C10] arg2 == bitmaskToAuthMethod(serverResponse) && arg2 != ""
 //@   loop 5 invariant failed_method_not_offered_again: [C10] authFailCount > old(authFailCount) ==> (availableBitmask & authMethodToBitmask(authLastFailed)) == 0
 //@   ensures negotiation_kept: negotiation.Encryption == old(negotiation.Encryption) && negotiation.NegotiatedCrypto == old(negotiation.NegotiatedCrypto) && negotiation.ClientConfig == old(negotiation.ClientConfig) && negotiation.ServerConfig == old(negotiation.ServerConfig) && negotiation.IsClient == old(negotiation.IsClient) && negotiation.SessionResumed == old(negotiation.SessionResumed)
 //@   ensures no_key_installed: a.stream.gcm == old(a.stream.gcm)
